@@ -260,7 +260,9 @@ impl<'a, 'tcx> Cx<'a, 'tcx> {
         if is_scalarish {
             // named constants are evaluated in the crate-level pass (after every body has been
             // borrowed): const evaluation may steal the mir_built of a local const fn.
-            let evaluable = matches!(c.const_, mir::Const::Val(..));
+            // constants of other crates (u8::MAX, ...) cannot steal local MIR: evaluate them here
+            let foreign_named = matches!(c.const_, mir::Const::Unevaluated(uv, _) if !uv.def.is_local() && uv.promoted.is_none());
+            let evaluable = matches!(c.const_, mir::Const::Val(..)) || foreign_named;
             if evaluable {
                 if let Some(si) = c.const_.try_eval_scalar_int(tcx, self.env) {
                     let size = si.size();
